@@ -271,6 +271,19 @@ func (m *Machine) callVx(fn *ssa.Function, a []Value) Value {
 			return m.lastRun.code
 		}
 		return int64(0)
+	case "vxTraceChan":
+		if ch, ok := a[0].(Iface).V.(*Chan); ok && ch != nil {
+			m.traceChans[ch] = true
+		}
+		return nil
+	case "vxTraceMutex":
+		if p, ok := a[0].(Iface).V.(*Value); ok && p != nil {
+			m.traceMutex[p] = true
+		}
+		return nil
+	case "vxTraceMark":
+		m.SyncTrace = append(m.SyncTrace, m.mustStr(a[0], "vxTraceMark"))
+		return nil
 	case "vxYield":
 		m.yield()
 		return nil
